@@ -1271,7 +1271,9 @@ const char* rtosc_skip_next_printed_arg(const char* src, int* skipped,
             {
                 if(skip_fmt(&src, " %*2d:%*1d%*1d%n"))
                 if(skip_fmt(&src, ":%*1d%*1d%n"))
-                if(skip_fmt(&src, ".%*d%n"))
+                // (with precision 0, the printed fraction is just ".")
+                if(skip_fmt(&src, ".%*d%n") ||
+                   (*src == '.' && !isdigit(src[1]) && ++src))
                 {
                     if(skip_fmt(&src, " ( ... + 0x%n"))
                     {
@@ -1824,7 +1826,9 @@ size_t rtosc_scan_arg_val(const char* src,
 
                 // lossless format is appended in parentheses?
                 //  => take it directly from there
-                if(*src == '.' && skip_fmt(&src, "%*f (%n"))
+                // (with precision 0, the printed fraction is just ".")
+                if(*src == '.' && (skip_fmt(&src, "%*f (%n") ||
+                                   skip_fmt(&src, ". (%n")))
                 {
                     // the printer writes the fraction as a hex float
                     // ("%a"), e.g. "0x1p-1" or "0x80000000p-32"
@@ -1837,10 +1841,18 @@ size_t rtosc_scan_arg_val(const char* src,
                 //  => convert it to fractions of seconds
                 else if(*src == '.')
                 {
+                    rd = 0;
                     sscanf(src, "%f%n", &secfracsf, &rd);
-                    src += rd;
-
-                    secfracs = rtosc_float2secfracs(secfracsf);
+                    if(rd)
+                    {
+                        src += rd;
+                        secfracs = rtosc_float2secfracs(secfracsf);
+                    }
+                    else
+                    {
+                        ++src; // just "."
+                        secfracs = 0;
+                    }
                 }
                 else
                 {
